@@ -346,6 +346,17 @@ func execAnswer(toks []string) string {
 		// through the public API; the mirror check is then limited to the header fields.
 		noStream = true
 	}
+	// an earlier answer with the same result code, whose Result-Code AVP the application then
+	// edits in place (ordinary handler practice), must not show in this one
+	guard(func() {
+		prev := req.Answer(uint32(rc))
+		for _, x := range prev.AVP {
+			if x.Code == 268 {
+				x.Data = datatype.Unsigned32(5002)
+				x.Flags = 0
+			}
+		}
+	})
 	var a *diam.Message
 	if r := guard(func() { a = req.Answer(uint32(rc)) }); r != "" {
 		return r
@@ -405,6 +416,32 @@ func execFind(toks []string) string {
 	}
 	var res []*diam.AVP
 	var err error
+	treeBefore := showAVPs(m.AVP)
+	run := func() (string, string) {
+		var rr []*diam.AVP
+		var e error
+		g := guard(func() {
+			switch parts[0] {
+			case "first":
+				var a *diam.AVP
+				a, e = m.FindAVP(codes[0], dict.UndefinedVendorID)
+				if e == nil {
+					rr = []*diam.AVP{a}
+				}
+			case "all":
+				rr, e = m.FindAVPs(codes[0], dict.UndefinedVendorID)
+			default:
+				rr, e = m.FindAVPsWithPath(codes, dict.UndefinedVendorID)
+			}
+		})
+		if g != "" {
+			return g, ""
+		}
+		if e != nil {
+			return "err", ""
+		}
+		return showAVPs(rr), ""
+	}
 	r := guard(func() {
 		switch parts[0] {
 		case "first":
@@ -422,10 +459,20 @@ func execFind(toks []string) string {
 	if r != "" {
 		return r
 	}
-	if err != nil {
-		return "err"
+	first := "err"
+	if err == nil {
+		first = showAVPs(res)
 	}
-	return showAVPs(res)
+	// searching is read-only: the same query again gives the same answer, and the tree is as it was
+	second, _ := run()
+	tail := ""
+	if second != first {
+		tail += " again=" + second
+	}
+	if showAVPs(m.AVP) != treeBefore {
+		tail += " tree=changed"
+	}
+	return first + tail
 }
 
 // ------------------------------------------------------------------ dictionary view for generators
@@ -781,7 +828,20 @@ func genMessage(r *RNG) genMsg {
 	n := []int{0, 1, 1, 2, 3, 4, 5, 6, 8, 12}[r.Intn(10)]
 	var ops []byte
 	for i := 0; i < n; i++ {
-		g.avps = append(g.avps, genAVP(r, v, app, 0))
+		a := genAVP(r, v, app, 0)
+		// now and then the AVP sits inside a chain of grouped AVPs: 7..10 levels (around any
+		// small depth bound), 17, 33
+		if gl := v.byType[app][datatype.GroupedType]; len(gl) > 0 && r.Chance(6) {
+			for d, k := 0, []int{7, 8, 9, 10, 17, 33}[r.Intn(6)]; d < k; d++ {
+				c := gl[r.Intn(len(gl))]
+				members := []*diam.AVP{a}
+				if r.Chance(25) {
+					members = append(members, genAVP(r, v, app, 40))
+				}
+				a = diam.NewAVP(c.code, 0x40, c.vendor, &diam.GroupedAVP{AVP: members})
+			}
+		}
+		g.avps = append(g.avps, a)
 		ops = append(ops, "++a^++a^M"[r.Intn(9)])
 	}
 	g.ops = string(ops)
@@ -866,6 +926,17 @@ var groupCodes = []uint32{260, 279, 284, 297}
 var strCodes = []uint32{264, 296, 263, 1, 25, 269, 281}
 
 func genRecord(r *RNG, depth int) []byte {
+	if depth == 0 && r.Chance(5) {
+		// a record (well formed or not) below 7..33 levels of grouped AVPs
+		inner := genRecord(r, 1)
+		for d, k := 0, []int{7, 8, 9, 10, 17, 33}[r.Intn(6)]; d < k; d++ {
+			if r.Chance(20) {
+				inner = append(inner, genRecord(r, 5)...)
+			}
+			inner = rawAVP(groupCodes[r.Intn(len(groupCodes))], 0x40, 0, 8+len(inner), inner, true)
+		}
+		return inner
+	}
 	k := r.Intn(100)
 	flags := uint8(0)
 	if r.Chance(50) {
@@ -1096,6 +1167,48 @@ func genFind(r *RNG) string {
 	all := append(append([]uint32{}, leafCodes...), grpCodes...)
 	all = append(all, 257, 1, 3000001) // absent from the tree; the last one unknown to the dictionary
 	mode := []string{"first", "all", "path"}[r.Intn(3)]
+	if mode == "path" && r.Chance(35) {
+		// a path that is there, several times: sibling groups of one code that each hold the last
+		// element of the path, with other members before and after it
+		G, X := grpCodes[r.Intn(len(grpCodes))], leafCodes[r.Intn(len(leafCodes))]
+		path := []uint32{G}
+		if r.Chance(40) {
+			path = append(path, grpCodes[r.Intn(len(grpCodes))])
+		}
+		var build func(level int) *diam.AVP
+		build = func(level int) *diam.AVP {
+			g := &diam.GroupedAVP{}
+			for i, n := 0, r.Intn(3); i < n; i++ {
+				g.AVP = append(g.AVP, mk(3))
+			}
+			if level == len(path)-1 {
+				for i, n := 0, 1+r.Intn(2); i < n; i++ {
+					serial++
+					g.AVP = append(g.AVP, diam.NewAVP(X, 0x40, 0, datatype.Unsigned32(serial)))
+				}
+			} else {
+				for i, n := 0, 1+r.Intn(2); i < n; i++ {
+					g.AVP = append(g.AVP, build(level+1))
+				}
+			}
+			for i, n := 0, r.Intn(3); i < n; i++ {
+				g.AVP = append(g.AVP, mk(3))
+			}
+			serial++
+			return diam.NewAVP(path[level], uint8(serial%2)*0x40, 0, g)
+		}
+		for i, n := 0, 2+r.Intn(2); i < n; i++ {
+			as = append(as, build(0))
+			if r.Bool() {
+				as = append(as, mk(1))
+			}
+		}
+		var cs []string
+		for _, c := range append(path, X) {
+			cs = append(cs, strconv.Itoa(int(c)))
+		}
+		return fmt.Sprintf("codec find d=default app=0 %s q=path:%s", showAVPs(as), strings.Join(cs, "."))
+	}
 	var codes []string
 	k := 1
 	if mode == "path" {
